@@ -66,7 +66,7 @@ LIBC_UNWIND = {"vin_bytes.0": 130, "vin_bytes.1": 130, "strlen.0": 70, "strcpy.0
                "liberasurecode_init.0": 12, "liberasurecode_exit.0": 12,
                "rs_galois_init_tables.0": 16, "gf16_mul_u.0": 17, "gf16_inv_u.0": 17,
                "gf_mul.0": 9, "gf_inv.0": 9, "ec_init_tables.0": 33, "ec_init_tables.1": 33, "ec_init_tables.2": 33, "m16_mul.0": 17, "m16_inv.0": 17, "m8_mul.0": 9, "m8_inv.0": 9,
-               "lagr16.0": 34, "tab_entry.0": 9}
+               "lagr16.0": 34, "xor_eq_find.0": 40, "tab_entry.0": 9}
 
 
 @dataclass
@@ -350,6 +350,7 @@ def run_ob(ctx, ob):
         r.note = f"rc={rc} no result section; {errs[-600:]} {err[-300:]}"
         return r
     fails = []
+    unknown = []
     for pr in results:
         st = pr.get("status")
         desc = pr.get("description", "")
@@ -360,13 +361,17 @@ def run_ob(ctx, ob):
         if st == "FAILURE":
             fails.append((pr.get("property", "?"), desc, loc_str(pr.get("sourceLocation"))))
         elif st not in ("SUCCESS",):
-            fails.append((pr.get("property", "?"), f"[{st}] " + desc, loc_str(pr.get("sourceLocation"))))
+            unknown.append((pr.get("property", "?"), f"[{st}] " + desc, loc_str(pr.get("sourceLocation"))))
     r.failures = fails
     unw = [f for f in fails if "unwinding assertion" in f[1]]
     if unw:
         r.verdict, r.note = "error", "unwinding bound too small: " + "; ".join(f"{f[0]}" for f in unw[:5])
     elif fails:
         r.verdict = "violated"
+        if unknown:
+            r.note = f"{len(unknown)} further checks left undecided by CBMC after the failures"
+    elif unknown:
+        r.verdict, r.note = "inconclusive", f"{len(unknown)} checks undecided: " + "; ".join(u[1] for u in unknown[:3])
     elif ob.need_witness and not r.witness:
         r.verdict, r.note = "error", "vacuous: witness assertion not reached / not violated"
     else:
@@ -491,6 +496,7 @@ def execute(ctx, obs, native_steps=(), assumptions=(), trusted=(), extra_cov=Non
     results.sort(key=lambda r: r.ob.id)
     violations, known_hit, ub_only, model_err, inconcl = [], {}, [], [], []
     replayed = 0
+    tasks = []
     for r in results:
         if r.verdict in ("inconclusive", "error"):
             if r.ob.required:
@@ -498,39 +504,54 @@ def execute(ctx, obs, native_steps=(), assumptions=(), trusted=(), extra_cov=Non
             continue
         if r.verdict != "violated":
             continue
-        # group failures: replay one trace per distinct description (cap), classify
+        # one trace per distinct (description, location); property assertions first; capped
         seen_desc = {}
-        for prop, desc, loc in r.failures:
+        for prop, desc, loc in sorted(r.failures, key=lambda f: (not f[1].startswith("VP:"), f[1])):
             keyd = desc + "@" + loc
-            if keyd in seen_desc:
-                continue
-            seen_desc[keyd] = prop
-        for keyd, prop in list(seen_desc.items())[:12]:
+            if keyd not in seen_desc:
+                seen_desc[keyd] = prop
+        items = list(seen_desc.items())
+        cap = int(os.environ.get("VERIF_TRIAGE_CAP", "6"))
+        if len(items) > cap:
+            ctx.say(f"  note: ob={r.ob.id} has {len(items)} distinct failing checks; replaying the first {cap} (property assertions first)")
+        for keyd, prop in items[:cap]:
             desc, loc = keyd.rsplit("@", 1)
-            k = match_known(known, r.ob.id, desc, loc)
-            vins = get_trace_inputs(ctx, r.ob, r.binary, prop)
-            if vins is None:
-                model_err.append((r, desc, loc, "no trace"))
-                continue
-            st, out, rpath = native_replay(ctx, r.ob, vins, prop)
-            replayed += 1
-            is_vp = desc.startswith("VP:")
-            if st == "reproduced":
-                if k:
-                    known_hit.setdefault((k["ob"], k["desc"]), (k, r.ob.id, rpath))
-                else:
-                    violations.append((r, desc, loc, rpath, out))
-            elif st in ("not-reproduced",) and (not is_vp) and any(p in desc for p in UB_ONLY_PAT):
-                ub_only.append((r, desc, loc))
-            elif st == "not-reproduced" and not is_vp:
-                # CBMC safety check that the sanitizers do not confirm: reported, never a violation
-                ub_only.append((r, desc, loc))
+            tasks.append((r, desc, loc, prop))
+
+    def triage(t):
+        r, desc, loc, prop = t
+        vins = get_trace_inputs(ctx, r.ob, r.binary, prop)
+        if vins is None:
+            return (t, None, "no trace", "")
+        st, out, rpath = native_replay(ctx, r.ob, vins, prop)
+        return (t, st, out, rpath)
+
+    with ThreadPoolExecutor(max_workers=max(2, ctx.jobs // 2)) as ex:
+        triaged = list(ex.map(triage, tasks))
+    for (r, desc, loc, prop), st, out, rpath in triaged:
+        k = match_known(known, r.ob.id, desc, loc)
+        if st is None:
+            if k:
+                known_hit.setdefault((k["ob"], k["desc"]), (k, r.ob.id, rpath))
             else:
-                if k:
-                    # a listed finding whose replay does not fault natively is still the listed finding
-                    known_hit.setdefault((k["ob"], k["desc"]), (k, r.ob.id, rpath))
-                else:
-                    model_err.append((r, desc, loc, st + ": " + out[-400:]))
+                model_err.append((r, desc, loc, "no trace"))
+            continue
+        replayed += 1
+        is_vp = desc.startswith("VP:")
+        if st == "reproduced":
+            if k:
+                known_hit.setdefault((k["ob"], k["desc"]), (k, r.ob.id, rpath))
+            else:
+                violations.append((r, desc, loc, rpath, out))
+        elif st == "not-reproduced" and not is_vp:
+            # CBMC safety check that the sanitizers do not confirm: reported, never a violation
+            ub_only.append((r, desc, loc))
+        else:
+            if k:
+                # a listed finding whose replay does not fault natively is still the listed finding
+                known_hit.setdefault((k["ob"], k["desc"]), (k, r.ob.id, rpath))
+            else:
+                model_err.append((r, desc, loc, st + ": " + out[-400:]))
     for (k, obid, rpath) in known_hit.values():
         ctx.say(f"KNOWN-FINDING: property={ctx.prop} {k['text']} (ob={obid} replay={rpath})")
     for r, desc, loc in ub_only:
